@@ -40,7 +40,7 @@ func init() {
 			checkC17Nested(c, budget(c.Tier, 200, 8000))
 		}}
 	props["C19"] = propRun{
-		rule: "(a) tags rendered from random (key, value) lists with strconv.Quote and random blanks, one third mutated at a random byte position, through the scanner; (b) generated declarations (15% deliberately malformed / colliding / over-long short names / defaults on flags) built on the real library and in the model, full dump of the public model compared, attributes checked against reflect.StructTag; (c) duplicates stage: one declaration with two options of different groups sharing a short or (namespaced) long name - top level / nested / sibling groups / two levels deep / created by a namespace - must be refused with ErrDuplicatedFlag, controls accepted; (d) malformed stage: a well-formed declaration in which the tag of one field (option at the top / in a group / in a command, group field, command field, positional-args field, positional argument) is broken in a definite way must be refused with ErrTag; (e) indirect-types stage, against the library only (types outside the model's universe): fields reaching bool / string / int through up to three levels of slice and pointer, with and without a default tag: a default on a boolean flag is refused with ErrInvalidTag whatever the indirection, everything else is accepted; (f) containers stage, against the library only: a struct (or pointer to one) used as group / command / positional-args / untagged nested struct whose type also implements Unmarshaler (pointer receiver, value receiver, promoted): the public model holds the group with its namespaced options and defaults, the command with its aliases, the positional arguments; a malformed tag inside it is refused with ErrTag; distinct per tag / declaration",
+		rule: "(a) tags rendered from random (key, value) lists with strconv.Quote and random blanks, one third mutated at a random byte position, through the scanner; (b) generated declarations (15% deliberately malformed / colliding / over-long short names / defaults on flags) built on the real library and in the model, full dump of the public model compared, attributes checked against reflect.StructTag; (c) duplicates stage: one declaration with two options of different groups sharing a short or (namespaced) long name - top level / nested / sibling groups / two levels deep / created by a namespace - must be refused with ErrDuplicatedFlag, controls accepted; (d) malformed stage: a well-formed declaration in which the tag of one field (option at the top / in a group / in a command, group field, command field, positional-args field, positional argument) is broken in a definite way must be refused with ErrTag; (e) indirect-types stage, against the library only (types outside the model's universe): fields reaching bool / string / int through up to three levels of slice and pointer, with and without a default tag: a default on a boolean flag is refused with ErrInvalidTag whatever the indirection, everything else is accepted; (f) containers stage, against the library only: a struct (or pointer to one) used as group / command / positional-args / untagged nested struct whose type also implements Unmarshaler (pointer receiver, value receiver, promoted): the public model holds the group with its namespaced options and defaults, the command with its aliases, the positional arguments; a malformed tag inside it is refused with ErrTag; (g) late-group stage, library only: a declaration attached with (*Group).AddGroup (also below a nested group), Command.AddGroup or Parser.AddGroup whose options clash (short, long, long through a namespace) is refused with ErrDuplicatedFlag, one without a clash is accepted; distinct per tag / declaration",
 		run: func(c *Ctx) {
 			c.N = budget(c.Tier, 3000, 300000)
 			checkC19Scan(c)
@@ -51,6 +51,7 @@ func init() {
 			checkC19Exotic(c, budget(c.Tier, 300, 3000))
 			checkC19Namespaces(c, budget(c.Tier, 400, 10000))
 			checkC19Containers(c, budget(c.Tier, 200, 2000))
+			checkC19GroupAddGroup(c, budget(c.Tier, 150, 1500))
 		}}
 	props["C02"] = propRun{
 		rule: "(a) option tokens in all spellings over ASCII / multi-byte / invalid names and arbitrary values through the splitting functions; (b) metamorphic groups: one generated declaration and surrounding argument vector, one occurrence of one option rendered as -xV, -x=V, -x V, --name=V, --name V and quoted forms; (c) cluster groups -abc [V] / -a -b -c [V] / -ab -c [V] with non-ASCII flags; (d) random whole-parser cases with 40% non-ASCII names; (e) library only: the spellings of an option of a bool-KINDED named type with its own conversion (scalar / pointer; it takes an argument although its kind is bool); distinct per token / group",
@@ -143,10 +144,11 @@ func init() {
 	}, oracleNoPanic, oracleContained)
 	{
 		base := props["C04"]
-		props["C04"] = propRun{rule: base.rule + "; typed stage: every documented cause of a rejection (unknown option long / short / in a cluster, missing or option-looking argument, argument for a flag, unconvertible / out-of-range / badly quoted value from the command line, the environment or a default tag, non-choice, required option, missing and unknown command, help, refusing callback) produced on purpose, with and without PrintErrors: the documented Type, and the text written exactly once to the right stream or not at all; callback-types stage (library only): callbacks declared to return *flags.Error, a pointer to an error type of the program, error, int or nothing, reached from the command line or a default tag, accepting their value (nil): success, never a panic", run: func(c *Ctx) {
+		props["C04"] = propRun{rule: base.rule + "; typed stage: every documented cause of a rejection (unknown option long / short / in a cluster, missing or option-looking argument, argument for a flag, unconvertible / out-of-range / badly quoted value from the command line, the environment or a default tag, non-choice, required option, missing and unknown command, help, refusing callback) produced on purpose, with and without PrintErrors: the documented Type, and the text written exactly once to the right stream or not at all; callback-types stage (library only): callbacks declared to return *flags.Error, a pointer to an error type of the program, error, int or nothing, reached from the command line or a default tag, accepting their value (nil): success, never a panic; struct-types stage (library only): options of struct types with their own conversion, comparable or not (a slice, a map, a func inside), scalar or pointer, with and without a default, on every kind of argument vector: a normal return", run: func(c *Ctx) {
 			base.run(c)
 			checkC04Typed(c, budget(c.Tier, 800, 30000))
 			checkC04CallbackTypes(c, budget(c.Tier, 200, 4000))
+			checkC04StructTypes(c, budget(c.Tier, 150, 3000))
 		}}
 	}
 	parseProp("C06", caseRule+"emphasis: required options at every level and positional count constraints", 2500, 100000, func(p *Profile) {
